@@ -61,7 +61,8 @@ def gen(seed, tier="quick"):
     extra = None
     if r.random() < 0.35:
         extra = r.choice(("tree", "union"))
-    scn = c02.family_scenario(seed, fam, r, max_perms=3, styles_per_perm=2, with_dc=(extra is None), only_new=True)
+    scn = c02.family_scenario(seed, fam, r, max_perms=3, styles_per_perm=2, with_dc=(extra is None), only_new=True,
+                              same_name=r.random() < 0.4)
     scn["property"] = PID
     scn["mode"] = mode
     scn["stack_switch"] = r.random() < 0.5
@@ -209,7 +210,7 @@ class Observer:
         if said != stage:
             self._v("message-stage", dict(base, what="message names the wrong stage", said=said, observed=stage, msg=msg[:300]))
         kind = f.get("kind", "fn")
-        want_name = f"simworld.{op['fn']}" if kind != "dc" else f"simworld.{op['fn']}.__init__"
+        want_name = f"simworld.{ctxsim.py_name(scn, op['fn'])}" if kind != "dc" else f"simworld.{ctxsim.py_name(scn, op['fn'])}.__init__"
         if m.group(2) != want_name:
             self._v("message-function", dict(base, what="message names the wrong function", said=m.group(2), expected=want_name))
         # bindings
